@@ -596,7 +596,7 @@ func propC12() *PropSpec {
 				}
 				return b
 			}
-			js = append(js, jobsN(".", "VerifEntryPoints", pick(rng(0, 2), rng(0, 3)), "Minify with chunking reader, Bytes, String, Reader wrapper with symbolic consumer buffers")...)
+			js = append(js, jobsN(".", "VerifEntryPoints", rng(0, 2), "Minify with chunking reader, Bytes, String, Reader wrapper with symbolic consumer buffers")...)
 			js = append(js, jobsN(".", "VerifWriterWrapper", pick(rng(0, 3), rng(0, 4)), "Writer wrapper: symbolic producer chunks, failing underlying writer, Close semantics")...)
 			js = append(js, jobsN(".", "VerifMiddleware", pick(rng(0, 2), rng(0, 3)), "Middleware / MiddlewareWithError / ResponseWriter: Content-Type vs path extension, Content-Length, WriteHeader")...)
 			js = append(js, jobsN(".", "VerifResponseWriterFault", pick(rng(1, 3), rng(1, 4)), "ResponseWriter over an underlying writer failing from its k-th Write with 4 error kinds: reported by Write or Close")...)
